@@ -62,12 +62,14 @@ def small_subjects(tier):
     return out
 
 
-@common.safe
-def drive_all(item):
+def drive_all(item, em=None):
     name, size, dn, kw, chan = item
     code = codes.build(name, size)
     n = code.n
-    em, p = model_of(chan, dn, kw)
+    if em is None:
+        em, p = model_of(chan, dn, kw)
+    else:
+        p = sum(chan[1:]) / 10
     N = 4 ** n
     scale = 10 ** n
     lin, logx = [], []
@@ -88,6 +90,36 @@ def drive_all(item):
     return {'kind': 'all', 'n': int(n), 'chan': list(chan), 'D': dtable(code, dn, kw),
             'lin': lin, 'logx': logx, 'obs': [], 'exps': [0, 0, 0],
             '_label': f'{codes.label(name, size, dn, kw)} chan={chan}', '_cost': N * n}
+
+
+@common.safe
+def drive_all_safe(item):
+    return drive_all(item)
+
+
+SHARED_GROUPS = [
+    [('RotatedPlanar2DCode', (2, 3)), ('RotatedPlanar2DCode', (3, 2))],
+    [('Planar2DCode', (2, 2)), ('RotatedPlanar2DCode', (1, 5)), ('RotatedPlanar2DCode', (5, 1))],
+    [('RotatedPlanar2DCode', (2, 2)), ('RotatedToric3DCode', (2, 2, 1)), ('Planar3DCode', (1, 2, 2))],
+    [('RotatedPlanar3DCode', (2, 3, 1)), ('RotatedPlanar3DCode', (3, 2, 1)), ('RotatedPlanar2DCode', (3, 2))],
+]
+
+
+@common.safe
+def drive_shared(item):
+    """ONE error-model object evaluated on several codes with the same number
+    of qubits, back and forth: each code must get its own channel."""
+    group, dn, kw, chan = item
+    em, _ = model_of(chan, dn, kw)
+    out = []
+    for name, size in list(group) + list(reversed(group)):
+        vs = [v[0] for v in codes.deformation_variants(name)]
+        if dn not in vs:
+            continue
+        r = drive_all((name, size, dn, kw, chan), em=em)
+        r['_label'] += ' (model object shared with other codes of equal n)'
+        out.append(r)
+    return out
 
 
 def bits_of(logp):
@@ -177,7 +209,14 @@ def run(tier):
         chans = CHANS if tier != 'quick' else [CHANS[k % len(CHANS)], CHANS[(k + 3) % len(CHANS)], CHANS[3]]
         for chan in dict.fromkeys(chans):
             jobs.append((name, size, dn, kw, chan))
-    recs = common.pmap(drive_all, jobs, procs=15)
+    recs = common.pmap(drive_all_safe, jobs, procs=15)
+    shared = []
+    for gi, group in enumerate(SHARED_GROUPS):
+        for chan in ((5, 1, 1, 3), (4, 3, 2, 1)) if tier == 'quick' else CHANS[:6]:
+            for dn, kw in (('XZZX', {}), ('XZZX', {'deformation_axis': 'x'})):
+                shared.append((group, dn, kw, chan))
+    for x in common.pmap(drive_shared, shared, procs=15):
+        recs += x if isinstance(x, list) else [x]
     perms = list(itertools.permutations((2, 3, 3)))
     djobs = []
     for k, (name, size, dn, kw) in enumerate(large_subjects(tier)):
